@@ -88,20 +88,23 @@ def v_bytes(b, tp=T_VARSTRING, long=False):
     if any(x >= 0x80 for x in b):
         feats.append("high")
     cls = "bytes[%s]%s" % (",".join(feats) or "plain", " as long data" if long else "")
-    return {"wire": {"t": tp, "u": False, "null": False, "wire": lenenc(b).hex(), "long": b.hex(), "is_long": long},
+    return {"wire": {"t": tp, "u": False, "null": False, "wire": lenenc(b).hex(), "long": b.hex(), "is_long": long,
+                     "twin": lenenc(b"pre").hex()},
             "judge": {"k": "str", "alts": [bsyms(b)]}, "cls": cls, "show": repr(b)}
 
 
 def v_int(tp, name, val, unsigned):
     size = {T_TINY: 1, T_SHORT: 2, T_YEAR: 2, T_LONG: 4, T_INT24: 4, T_LONGLONG: 8}[tp]
     raw = (val & ((1 << (8 * size)) - 1)).to_bytes(size, "little")
-    return {"wire": {"t": tp, "u": unsigned, "null": False, "wire": raw.hex(), "long": "", "is_long": False},
+    return {"wire": {"t": tp, "u": unsigned, "null": False, "wire": raw.hex(), "long": "", "is_long": False,
+                     "twin": (1).to_bytes(size, "little").hex()},
             "judge": {"k": "num", "alts": [bsyms(str(val).encode())]}, "cls": "%s%s" % (name, " unsigned" if unsigned else ""),
             "show": str(val)}
 
 
 def v_float(tp, name, raw, alts, cls=None):
-    return {"wire": {"t": tp, "u": False, "null": False, "wire": raw.hex(), "long": "", "is_long": False},
+    return {"wire": {"t": tp, "u": False, "null": False, "wire": raw.hex(), "long": "", "is_long": False,
+                     "twin": (struct.pack("<f", 2.5) if len(raw) == 4 else struct.pack("<d", 2.5)).hex()},
             "judge": {"k": "num", "alts": [bsyms(a.encode()) for a in alts]}, "cls": cls or name, "show": alts[0] if alts else name}
 
 
@@ -117,13 +120,14 @@ def fl_alts(mant, exp):
 
 def v_temporal(tp, name, payload, alts):
     raw = bytes([len(payload)]) + payload
-    return {"wire": {"t": tp, "u": False, "null": False, "wire": raw.hex(), "long": "", "is_long": False},
+    twin = bytes([8, 0, 0, 0, 0, 0, 9, 8, 7]) if tp == T_TIME else bytes([4]) + struct.pack("<HBB", 1999, 12, 31)
+    return {"wire": {"t": tp, "u": False, "null": False, "wire": raw.hex(), "long": "", "is_long": False, "twin": twin.hex()},
             "judge": {"k": "str", "alts": [bsyms(a.encode()) for a in alts]}, "cls": "%s[len%d]" % (name, len(payload)),
             "show": alts[0]}
 
 
 def v_null(tp):
-    return {"wire": {"t": tp, "u": False, "null": True, "wire": "", "long": "", "is_long": False},
+    return {"wire": {"t": tp, "u": False, "null": True, "wire": "", "long": "", "is_long": False, "twin": ""},
             "judge": {"k": "null", "alts": []}, "cls": "null", "show": "NULL"}
 
 
@@ -207,6 +211,17 @@ def build_cases(thorough, rng):
                 for pre in pres:
                     cases.append({"id": len(cases) + 1, "tpl": tpl, "mode": mode, "pre": pre, "vals": [x["wire"] for x in vs],
                                   "_vs": vs, "_probe": k})
+                # the re-execute form: an earlier execution carried these parameter types (other values), another packet
+                # passed, and the judged execution does not re-send the types.  Paired with the plain form of the same
+                # values (base) so that a refusal of the re-execute form alone is visible.
+                if (thorough or (vi + ti) % 3 == 0) and not any(x["wire"]["is_long"] for x in vs):
+                    base = next((c for c in cases[-len(pres):] if c["pre"] == ""), None)
+                    if base is None:
+                        base = {"id": len(cases) + 1, "tpl": tpl, "mode": mode, "pre": "", "vals": [x["wire"] for x in vs],
+                                "_vs": vs, "_probe": k}
+                        cases.append(base)
+                    cases.append({"id": len(cases) + 1, "tpl": tpl, "mode": mode, "pre": "ok-reuse", "vals": [x["wire"] for x in vs],
+                                  "_vs": vs, "_probe": k, "_base": base["id"]})
     return cases
 
 
@@ -247,6 +262,9 @@ def run(ctx):
     if ctx.replay:
         rec = ctx.read_ndjson(ctx.replay)[0]["case"]
         cases = [dict(rec["case"], id=1)]
+        if cases[0].get("pre") == "ok-reuse":     # the plain form of the same values, for the refusal comparison
+            cases.append(dict(rec["case"], id=2, pre=""))
+            cases[0]["_base"] = 2
     else:
         cases = build_cases(thorough, rng)
         for k in _stmt.known_cases("C15"):
@@ -272,10 +290,22 @@ def run(ctx):
         stored = {k: v for k, v in c.items() if k != "id"}
         mode = c["mode"] or "default"
         hist = {"": "", "ok": " (after an execution with other values)",
-                "failed": " (after a failed execution with other values)"}[c.get("pre", "")]
+                "failed": " (after a failed execution with other values)",
+                "ok-reuse": " (types re-used from an earlier execution with other values)"}[c.get("pre", "")]
         if o["status"] in ("set-refused", "prepare-refused", "count", "pre-unexpected"):
             raise vlib.Inconclusive("case %d could not be driven: %s %s" % (c["id"], o["status"], o.get("err")))
+        if o["status"] == "pre-refused":
+            continue   # the earlier execution with the twin values was itself refused: this form cannot be driven
+        if o["status"] == "panicked":
+            ctx.deviation("C15 mode=%s %s%s: the session panicked" % (mode, probe["cls"], hist),
+                          "template %r value %s: panic %s" % (c["tpl"], probe["show"], o.get("err")), {"case": stored})
+            continue
         if o["status"] == "refused":
+            b = obs.get(c.get("_base"))
+            if c.get("pre") == "ok-reuse" and b and b["status"] == "executed":
+                ctx.deviation("C15 mode=%s %s%s: refused although the same values are executed when the types are sent"
+                              % (mode, probe["cls"], hist),
+                              "template %r value %s: %s" % (c["tpl"], probe["show"], o.get("err")), {"case": stored})
             continue
         if len(o["out"]) != 1:
             ctx.deviation("C15 mode=%s %s%s: %d statements reached the backend" % (mode, probe["cls"], hist, len(o["out"])),
